@@ -137,6 +137,8 @@ class PathExec:
                 return ("opt", ({"checked_add": "add", "checked_sub": "sub", "checked_mul": "mul"}[c.method], args[0], args[1]))
             if c.method in ("saturating_add", "wrapping_add") and len(args) == 2 and c.method == "saturating_add":
                 return ("add", args[0], args[1])
+            if c.method == "div_ceil" and len(args) == 2 and args[1][0] == "const" and args[1][1] >= 1:
+                return ceil_div(args[0], args[1][1])       # the exact ceiling (cannot overflow), the same number as (a + c - 1) / c
         if name == OPT + "map_or" and len(c.args) == 3:
             # LEFT.as_ref().map_or(0, |t| t.table.len())
             src = b.source_def(c.args[0])
@@ -999,6 +1001,120 @@ def between_blocks_incl(body, a_bb, b_bb):
     return between_blocks(body, a_bb, b_bb) | {a_bb, b_bb}
 
 
+def _growers(ctx):
+    """{body path: [indices of usize parameters]} of the functions that leave the main table with at least that much free room: the function
+    that installs a new main table (S-grow: allocation >= L + p for each usize parameter p; the new table holds 0 or, for zero-sized elements,
+    L elements) and wrappers that hand one of their own usize parameters to it on every path that returns"""
+    def build():
+        T = ctx.facts.types
+        out = {}
+        for b, loc, c in replacer_sites(ctx):
+            if self_s_prefix(ctx, b) is None or b.kind == "Closure":
+                continue
+            ps = [l for l in range(2, b.arg_count + 1) if T[b.locals[l]["ty"]]["s"] == "usize"]
+            if ps:
+                out[b.path] = ps
+        for _ in range(2):
+            for b in ctx.facts.bodies.values():
+                if b.path in out or b.kind == "Closure" or self_s_prefix(ctx, b) is None:
+                    continue
+                cs = [x for x in ctx.calls(b) if not b.is_cleanup(x.loc.bb) and x.local_callee() is not None and x.local_callee().path in out]
+                if len(cs) != 1:
+                    continue
+                x = cs[0]
+                rp = x.arg_path(0)
+                if rp is None or not is_self_s(ctx, b, rp):
+                    continue
+                # every returning path passes through the call
+                if any(b.term(y)["k"] == "return" for y in b.reach_from([0], stop={x.loc.bb})):
+                    continue
+                pe = PathExec(ctx, b)
+                after = b.reach_from([x.target]) if x.target is not None else set()
+                if any(b.term(y)["k"] == "call" and not b.is_cleanup(y) and pe.mutates_tables(ctx.call_at(b, y)) for y in after):
+                    continue
+                mine = []
+                for gi in out[x.local_callee().path]:
+                    q = x.arg_path(gi - 1)
+                    if q is not None and not q.fields() and 2 <= q.root <= b.arg_count and T[b.locals[q.root]["ty"]]["s"] == "usize" \
+                            and len([1 for l_, st_ in b.all_assigns() if not st_["place"]["proj"] and st_["place"]["local"] == q.root]) == 0:
+                        mine.append(q.root)
+                if mine:
+                    out[b.path] = mine
+        return out
+    return ctx.memo("growers", build)
+
+
+def _tested_or_grown_proof(ctx, body, c, sp):
+    """every path to the insertion comes either over the has-room edge of a `capacity() != len()` test of the same table or from a call that
+    grows that table by a constant >= 1, and nothing touches the tables between there and the insertion"""
+    from rules_typestate import full_test_switches
+    from rules_protocol import between_blocks
+    if sp is None:
+        return None
+    est = {}
+    for bb, full_t in full_test_switches(ctx, body).items():
+        t = body.term(bb)
+        nf = [s_ for s_ in body.succs(bb) if s_ != full_t]
+        if len(nf) != 1 or body.preds(nf[0], True) != [bb]:
+            continue
+        d = body.source_def(t["discr"])
+        same = False
+        if d is not None and d[1] == "assign" and d[2]["rv"]["k"] == "binop":
+            for o in (d[2]["rv"]["a"], d[2]["rv"]["b"]):
+                sd = body.source_def(o)
+                if sd is not None and sd[1] == "call":
+                    q = ctx.resolve(body, ctx.call_at(body, sd[0].bb).arg_path(0))[1]
+                    qs = ctx.roles.s_prefix(q) if q is not None else None
+                    if qs is not None and qs.strip_refs().key() == sp:
+                        same = True
+        if same:
+            est[nf[0]] = "the has-room edge of the capacity test at %s" % body.where(Loc(bb, len(body.stmts(bb))))
+    G = _growers(ctx)
+    grown = 0
+    for x in ctx.calls(body):
+        lc = x.local_callee()
+        if lc is None or lc.path not in G or body.is_cleanup(x.loc.bb) or x.target is None:
+            continue
+        rp = x.arg_path(0)
+        q = ctx.resolve(body, rp)[1] if rp is not None else None
+        qs = ctx.roles.s_prefix(q) if q is not None else None
+        if q is None or (qs if qs is not None else q).strip_refs().key() != sp:
+            continue
+        for gi in G[lc.path]:
+            a = x.args[gi - 1]
+            v = None
+            if a["k"] == "const":
+                v = a.get("val")
+            else:
+                sd = body.source_def(a)
+                if sd is not None and sd[1] == "assign" and sd[2]["rv"]["k"] == "use" and sd[2]["rv"]["op"]["k"] == "const":
+                    v = sd[2]["rv"]["op"].get("val")
+            if isinstance(v, int) and v >= 1:
+                est[x.target] = "the call %s(.., %d) at %s (S-grow: the installed table has room for that many more)" % (lc.path, v, x.where())
+                grown += 1
+                break
+    if not grown or not est:
+        return None
+    if 0 not in est and c.loc.bb in body.reach_from([0], stop=set(est)):
+        return None            # a path that establishes nothing
+    if c.target is not None and c.loc.bb in body.reach_from([c.target], stop=set(est)):
+        return None            # a second insertion without a new test / growth
+    pe = PathExec(ctx, body)
+    used = []
+    for e, how in sorted(est.items()):
+        if c.loc.bb != e and c.loc.bb not in body.reach_from([e]):
+            continue
+        for y in between_blocks(body, e, c.loc.bb) | {e}:
+            if y == c.loc.bb or body.term(y)["k"] != "call" or body.is_cleanup(y):
+                continue
+            if pe.mutates_tables(ctx.call_at(body, y)):
+                return None
+        used.append(how)
+    if not used:
+        return None
+    return "every path comes from " + " or from ".join(used) + ", with nothing touching the tables in between"
+
+
 def rule_s_room(ctx):
     R = RuleResult("S-room", "hashbrown's insert_no_grow must find a free slot (it does not check): a caller-supplied element is put into the main table with it "
                    "only on the `capacity() != len()` edge of a test of that same table (nothing touching the table in between), directly or through "
@@ -1061,6 +1177,8 @@ def rule_s_room(ctx):
             R.inst(fn=body.path, site=c.where(), callee=c.tname, verdict="ok: on the has-room edge of the capacity test at %s" % body.where(Loc(guard, len(body.stmts(guard)))))
             continue
         proof = _reserved_loop_proof(ctx, body, c, sp) if guard is None else None
+        if proof is None:
+            proof = _tested_or_grown_proof(ctx, body, c, sp)
         if proof is not None:
             R.inst(fn=body.path, site=c.where(), callee=c.tname, verdict="ok: " + proof)
             continue
